@@ -96,10 +96,13 @@ func c16Server(kind string, steps []c16SStep) (obs []c16SObs, broken string) {
 	}
 	var doInit func(v string, n int) c16SObs
 	switch kind {
-	case "streamable", "stateless":
+	case "streamable", "stateless", "nosession":
 		opts := []mcp.ServerOption{mcp.WithServerPath("/mcp"), mcp.WithServerLogger(silentLogger{})}
 		if kind == "stateless" {
 			opts = append(opts, mcp.WithStatelessMode(true))
+		}
+		if kind == "nosession" {
+			opts = append(opts, mcp.WithoutSession())
 		}
 		srv := mcp.NewServer("verif-name", "9.8.7", opts...)
 		ts := httptest.NewServer(srv.Handler())
@@ -128,6 +131,9 @@ func c16Server(kind string, steps []c16SStep) (obs []c16SObs, broken string) {
 				if len(evs) > 0 {
 					body = []byte(evs[len(evs)-1].Data)
 				}
+			}
+			if r.Err != nil {
+				return c16SObs{Err: "no HTTP answer: " + r.Err.Error()}
 			}
 			if r.Status != 200 {
 				return c16SObs{Err: fmt.Sprintf("status %d", r.Status)}
